@@ -24,7 +24,8 @@ CONSTANTS Bevs,        \* bufferevent ids (1..N)
           Rates,       \* candidate rates (units per tick)
           Bursts,      \* candidate bursts
           Singles,     \* candidate max_single values
-          GRate, GBurst, GMinShare,   \* group configuration
+          GRate, GBurst, GMinShare,   \* initial group configuration
+          GCfgs,       \* configurations that bufferevent_rate_limit_group_set_cfg may install, encoded 16*rate + burst
           MaxOps       \* bound on operations per tick (state-space bound)
 
 VARIABLES tick,     \* current tick
@@ -33,7 +34,7 @@ VARIABLES tick,     \* current tick
           last,     \* b -> tick of the last update of lvl[b]
           single,   \* b -> max_single
           member,   \* b -> BOOLEAN (in the group)
-          g,        \* group: [lvl, susp]
+          g,        \* group: [lvl, susp, rate, burst, since]; since = tick of the last set_cfg (0: creation)
           moved,    \* b -> [0..MaxTick -> bytes moved in that tick]
           gmoved,   \* [0..MaxTick -> bytes moved by group members in that tick]
           credit,   \* b -> [0..MaxTick -> bytes granted by manual refills (negative decrements)]
@@ -56,8 +57,7 @@ Refill(level, rate, burst, n) == IF n <= 0 THEN level ELSE Min(burst, level + n 
 Cur(b) == Refill(lvl[b], cfg[b].rate, cfg[b].burst, tick - last[b])
 NMembers == Cardinality({b \in Bevs : member[b]})
 \* the group's min_share can never exceed its rate (bufferevent_rate_limit_group_set_min_share)
-GCfg == [rate |-> GRate, burst |-> GBurst, minshare |-> GMinShare]
-MinShare == Min(GCfg.minshare, GCfg.rate)
+MinShare == Min(GMinShare, g.rate)
 Share == IF g.susp THEN 0 ELSE Max(g.lvl \div NMembers, MinShare)
 \* the per-operation budget
 RlimMax(b) ==
@@ -79,7 +79,7 @@ Init ==
     /\ single \in [Bevs -> Singles]
     /\ member \in [Bevs -> BOOLEAN]
     /\ \A b \in Bevs : HasCfg(b) \/ member[b]      \* otherwise nothing limits b
-    /\ g = [lvl |-> GCfg.rate, susp |-> FALSE]
+    /\ g = [lvl |-> GRate, susp |-> FALSE, rate |-> GRate, burst |-> GBurst, since |-> 0]
     /\ moved = [b \in Bevs |-> [t \in Ticks |-> 0]]
     /\ gmoved = [t \in Ticks |-> 0]
     /\ credit = [b \in Bevs |-> [t \in Ticks |-> 0]]
@@ -95,7 +95,7 @@ IoOp(b, n) ==
     /\ lastop' = [b |-> b, n |-> n, allowed |-> RlimMax(b)]
     /\ lvl' = [lvl EXCEPT ![b] = IF HasCfg(b) THEN Cur(b) - n ELSE @]
     /\ last' = [last EXCEPT ![b] = IF HasCfg(b) THEN tick ELSE @]
-    /\ g' = (IF member[b] THEN [lvl |-> g.lvl - n, susp |-> g.susp \/ (g.lvl - n <= 0)] ELSE g)
+    /\ g' = (IF member[b] THEN [g EXCEPT !.lvl = g.lvl - n, !.susp = g.susp \/ (g.lvl - n <= 0)] ELSE g)
     /\ moved' = [moved EXCEPT ![b][tick] = @ + n]
     /\ gmoved' = (IF member[b] THEN [gmoved EXCEPT ![tick] = @ + n] ELSE gmoved)
     /\ nops' = nops + 1
@@ -123,13 +123,24 @@ Leave(b) ==
     /\ nops' = nops + 1
     /\ UNCHANGED <<tick, cfg, lvl, last, single, g, moved, gmoved, credit, lastop>>
 
+(* bufferevent_rate_limit_group_set_cfg(g, cfg): the new configuration is   *)
+(* installed and both group buckets are clipped to the NEW burst; from this *)
+(* tick on the group is accountable to the new configuration.               *)
+GroupSetCfg(c) ==
+    /\ nops < MaxOps
+    /\ <<g.rate, g.burst>> # <<c \div 16, c % 16>>
+    /\ g' = [g EXCEPT !.rate = c \div 16, !.burst = c % 16, !.lvl = Min(g.lvl, c % 16), !.since = tick]
+    /\ gmoved' = [gmoved EXCEPT ![tick] = 0]
+    /\ nops' = nops + 1
+    /\ UNCHANGED <<tick, cfg, lvl, last, single, member, moved, credit, lastop>>
+
 (* The clock moves to the next tick; the group's refill timer fires          *)
 (* (bev_group_refill_callback_).  Own buckets are refilled lazily (Cur).     *)
 TickAdvance ==
     /\ tick < MaxTick
     /\ tick' = tick + 1
-    /\ LET nl == Refill(g.lvl, GCfg.rate, GCfg.burst, 1)
-       IN g' = [lvl |-> nl, susp |-> g.susp /\ ~(nl >= MinShare)]
+    /\ LET nl == Refill(g.lvl, g.rate, g.burst, 1)
+       IN g' = [g EXCEPT !.lvl = nl, !.susp = g.susp /\ ~(nl >= MinShare)]
     /\ nops' = 0
     /\ UNCHANGED <<cfg, lvl, last, single, member, moved, gmoved, credit, lastop>>
 
@@ -138,6 +149,7 @@ Next ==
     \/ \E b \in Bevs : \E n \in 1..Max(1, RlimMax(b)) : IoOp(b, n)
     \/ \E b \in Bevs : \E k \in {-1, 1, 2} : ManualDecrement(b, k)
     \/ \E b \in Bevs : Join(b) \/ Leave(b)
+    \/ \E c \in GCfgs : GroupSetCfg(c)
 
 Spec == Init /\ [][Next]_vars
 
@@ -147,15 +159,16 @@ WindowBound ==
     \A b \in Bevs : HasCfg(b) =>
         \A t1 \in 0..tick : \A t2 \in t1..tick :
             SumTo(moved[b], t1, t2) <= cfg[b].burst + (t2 - t1 + 1) * cfg[b].rate + SumTo(credit[b], t1, t2)
-\* the members of the group together: at most the group's burst + k*rate
+\* the members of the group together: at most the group's burst + k*rate (of the configuration in force,
+\* counted from the tick in which it was installed)
 GroupWindowBound ==
-    \A t1 \in 0..tick : \A t2 \in t1..tick :
-        SumTo(gmoved, t1, t2) <= GCfg.burst + (t2 - t1 + 1) * GCfg.rate
+    \A t1 \in g.since..tick : \A t2 \in t1..tick :
+        SumTo(gmoved, t1, t2) <= g.burst + (t2 - t1 + 1) * g.rate
 \* per-operation maxima are respected
 PerOpMax == lastop.b # 0 => (lastop.n <= single[lastop.b] /\ lastop.n <= lastop.allowed)
 \* a limited bufferevent with budget is not suspended: it can make progress in the tick in which its bucket is positive
 NoStall == \A b \in Bevs : (~member[b] /\ HasCfg(b) /\ Cur(b) > 0) => (~Suspended(b) /\ RlimMax(b) >= 1)
 \* buckets never exceed their burst (given AvoidKnown) and deficits are bounded by one operation
 LevelBound == \A b \in Bevs : HasCfg(b) => Cur(b) <= cfg[b].burst
-GroupDeficitBound == g.lvl > -MinShare /\ g.lvl <= GCfg.burst
+GroupDeficitBound == g.lvl > -GMinShare /\ g.lvl <= g.burst
 =============================================================================
